@@ -6,6 +6,8 @@ import (
 	"fmt"
 	"go/token"
 	"go/types"
+	"regexp"
+	"strconv"
 	"strings"
 
 	"golang.org/x/tools/go/ssa"
@@ -29,6 +31,9 @@ func runWEB(c *Ctx) (obls []Obl) {
 		webSnapshot(c, a, sn)
 	}
 	webLocks(c, a)
+	if fn != nil {
+		webDoc(c, a, fn, sn)
+	}
 	return
 }
 
@@ -195,20 +200,38 @@ func webValidation(c *Ctx, a *flAgg, fn *ssa.Function, x *SPE) {
 			provided := false
 			parsed := false
 			nonNeg, atMostOne := false, false
+			// the literals are matched on their structure: the subject must be the
+			// form value itself, or a component of strconv.Atoi applied to it
+			isForm := func(e *Expr) bool {
+				if e == nil || !(e.Op == OpCall || e.Op == OpInvoke) || !strings.HasSuffix(e.String(), `"`+name+`")`) {
+					return false
+				}
+				return strings.Contains(e.String(), "FormValue(")
+			}
+			atoiPart := func(e *Expr, id int) bool {
+				return e != nil && e.Op == OpExtract && e.ID == id && len(e.Args) == 1 && e.Args[0].calleeIs("strconv", "Atoi") && len(e.Args[0].Args) == 2 && isForm(e.Args[0].Args[1])
+			}
 			for _, lt := range p.Lits {
-				s := lt.Atom.String()
-				if !strings.Contains(s, `"`+name+`"`) {
+				at := lt.Atom
+				if at.Op != OpBin || len(at.Args) != 2 {
 					continue
 				}
+				l, r := at.Args[0], at.Args[1]
 				switch {
-				case strings.HasSuffix(s, `") == "")`) && !strings.Contains(s, "Atoi"):
-					provided = !lt.Pol
-				case strings.Contains(s, "strconv.Atoi(") && strings.HasSuffix(s, "#1 == nil)"):
+				case at.Tok == token.EQL && isForm(l):
+					if sv, ok := constStr(r); ok && sv == "" {
+						provided = !lt.Pol
+					}
+				case at.Tok == token.EQL && atoiPart(l, 1) && r.isNilConst():
 					parsed = lt.Pol
-				case strings.Contains(s, "strconv.Atoi(") && strings.HasSuffix(s, "#0 < 0)"):
-					nonNeg = !lt.Pol
-				case strings.Contains(s, "strconv.Atoi(") && strings.HasPrefix(s, "(1 < "):
-					atMostOne = !lt.Pol
+				case at.Tok == token.LSS && atoiPart(l, 0):
+					if z, ok := r.intConst(); ok && z == 0 {
+						nonNeg = !lt.Pol
+					}
+				case at.Tok == token.LSS && atoiPart(r, 0):
+					if z, ok := l.intConst(); ok && z == 1 {
+						atMostOne = !lt.Pol
+					}
 				}
 			}
 			if !provided {
@@ -628,5 +651,120 @@ func webLocks(c *Ctx, a *flAgg) {
 		} else {
 			a.ok(rule, "library+cli", fmt.Sprintf("each of the %d lock acquisitions is released on every path to an exit of its function", rep.sites), token.NoPos)
 		}
+	}
+}
+
+// webDoc (WEB-doc): the numbers the handler's documentation promises are the
+// ones the code uses — the default of maxmem (the value snapshot() receives
+// when the parameter is absent) and its documented minimum (the size of the
+// first capture buffer, to which a smaller maxmem is raised). A request with
+// a small but valid maxmem relies on that floor: with a smaller first buffer
+// the dump of a mid-sized process is truncated and the reply is a 500 or an
+// incomplete page.
+func webDoc(c *Ctx, a *flAgg, handler, snap *ssa.Function) {
+	const rule = "WEB-doc"
+	fd := c.L.FuncDecl(handler)
+	if fd == nil || fd.Doc == nil {
+		a.ok(rule, "SnapshotHandler/doc", "the handler has no documentation comment to agree with", handler.Pos())
+		return
+	}
+	doc := fd.Doc.Text()
+	num := func(re string) (int64, bool) {
+		m := regexp.MustCompile(re).FindStringSubmatch(doc)
+		if m == nil {
+			return 0, false
+		}
+		v, err := strconv.ParseInt(m[1], 10, 64)
+		return v, err == nil
+	}
+	docDef, haveDef := num(`maxmem:\s*\(default:\s*(\d+)\)`)
+	docMin, haveMin := num(`(?i)minimum is\s+(\d+)`)
+	exprHome = handler.Pkg.Pkg
+	if haveDef {
+		x := &SPE{Fn: handler, MaxVisits: 2}
+		x.Explore()
+		ok, seen := true, false
+		got := ""
+		for _, p := range x.Paths {
+			absent := false
+			for _, lt := range p.Lits {
+				at := lt.Atom
+				if lt.Pol && at.Op == OpBin && at.Tok == token.EQL && strings.Contains(at.Args[0].String(), "FormValue(") && strings.HasSuffix(at.Args[0].String(), `"maxmem")`) {
+					if sv, isC := constStr(at.Args[1]); isC && sv == "" {
+						absent = true
+					}
+				}
+			}
+			if !absent {
+				continue
+			}
+			for _, ev := range p.Events {
+				if ev.Kind == EvCall && ev.Val.Op == OpCall && ev.Val.Fn == snap && len(ev.Val.Args) >= 2 {
+					seen = true
+					if v, isC := ev.Val.Args[1].intConst(); !isC || v != docDef {
+						ok = false
+						got = ev.Val.Args[1].String()
+					}
+				}
+			}
+		}
+		switch {
+		case !seen:
+			a.und(rule, "SnapshotHandler/default-maxmem", "no path without a maxmem parameter reaches snapshot()", handler.Pos())
+		case ok:
+			a.ok(rule, "SnapshotHandler/default-maxmem", fmt.Sprintf("without the parameter snapshot() is given the documented default %d", docDef), handler.Pos())
+		default:
+			a.bad(rule, "SnapshotHandler/default-maxmem", fmt.Sprintf("the documentation promises a default maxmem of %d, the code uses %s", docDef, got), handler.Pos())
+		}
+	}
+	if haveMin && snap != nil {
+		exprHome = snap.Pkg.Pkg
+		x := &SPE{Fn: snap, MaxVisits: 1}
+		x.StopAt = func(in ssa.Instruction) bool {
+			call, ok := in.(*ssa.Call)
+			if !ok {
+				return false
+			}
+			cal := call.Call.StaticCallee()
+			return cal != nil && calleePkg(cal) == "runtime" && cal.Name() == "Stack"
+		}
+		x.Explore()
+		first, clamp := int64(-1), false
+		for _, p := range x.Paths {
+			if p.Term != "stopat" || len(p.Results) < 2 {
+				continue
+			}
+			buf := p.Results[len(p.Results)-2]
+			if buf.Op == OpMakeSlice {
+				if k, isC := buf.Args[0].intConst(); isC {
+					first = k
+				}
+			}
+			// make([]byte, K) with a constant K is an array allocation sliced to K
+			if buf.Op == OpSlice && len(buf.Args) == 4 && buf.Args[1] == nil && buf.Args[2] != nil && isArrayPtr(buf.Args[0]) {
+				if k, isC := buf.Args[2].intConst(); isC {
+					first = k
+				}
+			}
+			for _, lt := range p.Lits {
+				at := lt.Atom
+				if at.Op == OpBin && at.Tok == token.LSS && at.Args[0].Op == OpParam {
+					if k, isC := at.Args[1].intConst(); isC && k == first {
+						clamp = true
+					}
+				}
+			}
+		}
+		switch {
+		case first < 0:
+			a.und(rule, "snapshot/minimum-maxmem", "the size of the first capture buffer is not a constant", snap.Pos())
+		case first == docMin && clamp:
+			a.ok(rule, "snapshot/minimum-maxmem", fmt.Sprintf("a maxmem below the documented minimum %d is raised to it (the size of the first capture buffer)", docMin), snap.Pos())
+		default:
+			a.bad(rule, "snapshot/minimum-maxmem", fmt.Sprintf("the documentation promises a minimum maxmem of %d; the first capture buffer is %d bytes (raised to it: %v): a small valid maxmem gives a truncated dump of any process whose dump exceeds that", docMin, first, clamp), snap.Pos())
+		}
+	}
+	if !haveDef && !haveMin {
+		a.ok(rule, "SnapshotHandler/doc", "the documentation states no default or minimum for maxmem", handler.Pos())
 	}
 }
